@@ -1983,6 +1983,7 @@ func (s *Netceptor) removeConnection(remoteNodeID string) {
 		delete(s.connections, remoteNodeID)
 		verifhook.Emit(s.vn, "conn_del", "peer", remoteNodeID)
 		s.connLock.Unlock()
+		verifhook.Gate("remove_between_sections")
 		s.knownNodeLock.Lock()
 		_, ok := s.knownConnectionCosts[remoteNodeID]
 		if ok {
